@@ -52,7 +52,11 @@ func editRows(rng *rand.Rand, rows [][]string, tag string) [][]string {
 		case 0, 1:
 			if len(rows) > 0 {
 				i := rng.Intn(len(rows))
-				rows[i][1+rng.Intn(len(rows[i])-1)] = fmt.Sprintf("e%s_%d", tag, k)
+				v := fmt.Sprintf("e%s_%d", tag, k)
+				if rng.Intn(4) == 0 {
+					v = "" // empty cells, also in the last column of a block's last row
+				}
+				rows[i][1+rng.Intn(len(rows[i])-1)] = v
 			}
 		case 2:
 			rows = append(rows, []string{fmt.Sprintf("k%s_%d", tag, k), "n", fmt.Sprint(rng.Intn(100))})
@@ -89,6 +93,12 @@ func buildHistory(db objects.Store, rng *rand.Rand, o histOpts) (*history, error
 	base := make([][]string, o.BaseRows)
 	for i := range base {
 		base[i] = []string{fmt.Sprintf("r%05d", i), fmt.Sprintf("a%d", i%7), fmt.Sprintf("b%d", i%11)}
+		if i%11 == 3 || i == o.BaseRows-1 || i%255 == 254 {
+			base[i][2] = ""
+		}
+		if i%7 == 5 {
+			base[i][1] = ""
+		}
 	}
 	if o.Parents != nil {
 		o.N = len(o.Parents)
